@@ -234,6 +234,10 @@ func runC06(r *Run) {
 	checkSetterAccept(r, sa, cl)
 	sa.Done()
 
+	ga := r.Rule("C06.getaccept", "a typed getter refuses a value only on its reviewed conditions (value length, family code, size helpers, the attribute lookup, an error of the getter it delegates to): no condition on the bytes that carry the value proper", 10)
+	checkGetterAccept(r, ga, cl, getM)
+	ga.Done()
+
 	// ---- v4 mapped
 	v4 := r.Rule("C06.v4mapped", "the IPv4-mapped test inspects all of bytes 0..11 (ten zero bytes, then 0xff 0xff)", 1)
 	checkV4Mapped(r, v4, le)
@@ -1345,16 +1349,12 @@ func edgeRejects(p *Prog, fn *ssa.Function, iff *ssa.If, outcome bool) bool {
 	if idx < 0 {
 		return false
 	}
-	first := true
 	n, bad := 0, false
-	q := &PathQuery{P: p, Fn: fn, From: iff, MaxStates: 6000}
-	q.Fold = func(cond ssa.Value, c *PathCtx) (bool, bool) {
-		if first && cond == iff.Cond {
-			first = false
-			return outcome, true
-		}
-		return false, false
-	}
+	kk := newKeyer()
+	key, pol := kk.condKey(iff.Cond)
+	// the outcome is seeded as a known condition (not folded), so that what it says about the values it
+	// tests - an error known non-nil, a flag known set - is available at the returns
+	q := &PathQuery{P: p, Fn: fn, K: kk, From: iff, MaxStates: 6000, InitAssign: map[string]bool{key: outcome == pol}}
 	q.AtReturn = func(ret *ssa.Return, st uint64, c *PathCtx) {
 		n++
 		if c.NilState(ret.Results[idx]) != -1 {
@@ -1366,4 +1366,164 @@ func edgeRejects(p *Prog, fn *ssa.Function, iff *ssa.If, outcome bool) bool {
 	}
 	q.Run()
 	return n > 0 && !bad && !q.Exhausted
+}
+
+// getterRejectClass classifies a reject guard of a typed getter: what it looks at is the shape of the
+// value (its length, the family code, the size helpers, the lookup itself), never the bytes that carry
+// the value proper.
+func getterRejectClass(p *Prog, g rejectGuard, getM *ssa.Function) string {
+	cond, when := g.Cond, g.When
+	for {
+		if u, ok := cond.(*ssa.UnOp); ok && u.Op == token.NOT {
+			when = !when
+			cond = u.X
+			continue
+		}
+		break
+	}
+	b, ok := cond.(*ssa.BinOp)
+	if !ok {
+		return "other: " + exprCanon(cond)
+	}
+	op := b.Op
+	if !when {
+		inv := map[token.Token]token.Token{token.LSS: token.GEQ, token.LEQ: token.GTR, token.GTR: token.LEQ, token.GEQ: token.LSS, token.EQL: token.NEQ, token.NEQ: token.EQL}
+		if o, have := inv[op]; have {
+			op = o
+		} else {
+			return "other: !(" + exprCanon(cond) + ")"
+		}
+	}
+	isGetValue := func(v ssa.Value) bool {
+		v = canonPhi(deref(v))
+		e, isE := v.(*ssa.Extract)
+		if !isE || e.Index != 0 {
+			return false
+		}
+		c, isC := e.Tuple.(*ssa.Call)
+		return isC && getM != nil && callsFn(c, getM)
+	}
+	// nil test of an error
+	if isNilConst(b.Y) || isNilConst(b.X) {
+		x := b.X
+		if isNilConst(b.X) {
+			x = b.Y
+		}
+		x = canonPhi(deref(x))
+		var call *ssa.Call
+		switch y := x.(type) {
+		case *ssa.Call:
+			call = y
+		case *ssa.Extract:
+			call, _ = y.Tuple.(*ssa.Call)
+		}
+		if call != nil && op == token.NEQ {
+			if sc := call.Call.StaticCallee(); sc != nil && p.isLibFn(sc) {
+				if sc.Name() == "CheckOverflow" || sc.Name() == "CheckSize" {
+					return "size helper"
+				}
+				return "error of " + fnName(sc)
+			}
+		}
+		return "other: " + exprCanon(cond)
+	}
+	k, isK := constInt(b.Y)
+	if !isK {
+		return "other: " + exprCanon(cond)
+	}
+	// len(value) <op> k, len(value) % m <op> k
+	lenOfValue := func(v ssa.Value) (string, bool) {
+		if rem, isRem := v.(*ssa.BinOp); isRem && rem.Op == token.REM {
+			if m, isM := constInt(rem.Y); isM {
+				if lc, isL := rem.X.(*ssa.Call); isL && isBuiltinCall(lc, "len") && isGetValue(sliceRoot(lc.Call.Args[0])) {
+					return fmt.Sprintf("len(value) %% %d", m), true
+				}
+			}
+		}
+		if lc, isL := v.(*ssa.Call); isL && isBuiltinCall(lc, "len") && isGetValue(sliceRoot(lc.Call.Args[0])) {
+			if sl, isSl := lc.Call.Args[0].(*ssa.Slice); isSl && sl.Low != nil {
+				if lo, isC := constInt(sl.Low); isC && sl.High == nil {
+					return fmt.Sprintf("len(value[%d:])", lo), true
+				}
+			}
+			return "len(value)", true
+		}
+		return "", false
+	}
+	if s, ok := lenOfValue(b.X); ok {
+		return fmt.Sprintf("%s %s %d", s, op, k)
+	}
+	// the 16-bit family code at value[0:2)
+	if c, isC := stripConvs(b.X).(*ssa.Call); isC {
+		if name, _, buf, okA := accessorCall(c); okA && name == "Uint16" {
+			if sl, isSl := buf.(*ssa.Slice); isSl && isGetValue(sliceRoot(sl)) {
+				lo, _ := constInt(sl.Low)
+				hi, okH := constInt(sl.High)
+				if sl.Low == nil {
+					lo = 0
+				}
+				if okH && lo == 0 && hi == 2 {
+					return fmt.Sprintf("family %s %d", op, k)
+				}
+			}
+		}
+	}
+	return "other: " + exprCanon(cond)
+}
+
+// getterRejectReference: the reject conditions of the typed getters on the reviewed tree.
+var getterRejectReference = map[string][]string{
+	"(*MappedAddress).GetFromAs":    {"error of (*Message).Get", "len(value) <= 4", "family not in {1,2}"},
+	"(*XORMappedAddress).GetFromAs": {"error of (*Message).Get", "len(value) <= 4", "family not in {1,2}", "size helper"},
+	"(*ErrorCodeAttribute).GetFrom": {"error of (*Message).Get", "len(value) < 4"},
+	"(*TextAttribute).GetFromAs":    {"error of (*Message).Get"},
+	"(*UnknownAttributes).GetFrom":  {"error of (*Message).Get", "len(value) % 2 != 0"},
+}
+
+func checkGetterAccept(r *Run, rc *RuleCtx, cl *closures, getM *ssa.Function) {
+	p := r.P
+	for _, fn := range cl.Getters {
+		if fn.Blocks == nil || errorResultIndex(fn) < 0 {
+			continue
+		}
+		r.Analysed(fn)
+		gs := rejectGuardsOf(p, fn)
+		// a family test rejects together with the family tests that lead to it (an if-chain or a switch in
+		// any order): the class is the set of family codes that were ruled out
+		classOf := func(g rejectGuard) string {
+			cls := getterRejectClass(p, g, getM)
+			if !strings.HasPrefix(cls, "family != ") {
+				return cls
+			}
+			codes := map[string]bool{strings.TrimPrefix(cls, "family != "): true}
+			for _, ec := range allEntryConds(g.If.Block()) {
+				if c2 := getterRejectClass(p, rejectGuard{g.If, ec.Cond, ec.Val}, getM); strings.HasPrefix(c2, "family != ") {
+					codes[strings.TrimPrefix(c2, "family != ")] = true
+				}
+			}
+			var ks []string
+			for k := range codes {
+				ks = append(ks, k)
+			}
+			sort.Strings(ks)
+			return "family not in {" + strings.Join(ks, ",") + "}"
+		}
+		var got []string
+		for _, g := range gs {
+			got = append(got, classOf(g))
+		}
+		sort.Strings(got)
+		ref := getterRejectReference[fnName(fn)]
+		rc.Instance(fnName(fn)+"|rejects", true, map[string]interface{}{"getter": fnName(fn), "rejects_when": got, "reference": ref})
+		allowed := map[string]bool{}
+		for _, x := range ref {
+			allowed[x] = true
+		}
+		for _, g := range gs {
+			cls := classOf(g)
+			if !allowed[cls] {
+				rc.Violation(fn, instrPos(g.If), "getter rejects when "+cls, fmt.Sprintf("the reviewed getter rejects only on %v: a value that RFC 5389 allows for the attribute (and that an independent encoder produces) is refused", ref))
+			}
+		}
+	}
 }
